@@ -82,3 +82,9 @@ package util
 //@   requires RI(q)
 //@   modifies nothing
 //@   ensures #depth result == len(q.queue)
+
+//@ func StringSliceContains [C04]
+//@   pure
+//@   ensures result <==> exists i int :: 0 <= i && i < len(ss) && ss[i] == s
+//@   loop 1 invariant -1 <= rangeindex && rangeindex < len(ss)
+//@   loop 1 invariant forall j int :: 0 <= j && j <= rangeindex ==> ss[j] != s
